@@ -142,6 +142,63 @@ def squeeze(s):
     return re.sub(r"\s+", "", re.sub(r"/\*.*?\*/", "", s, flags=re.S))
 
 
+TWO_CONTEXT_DECLS = """
+#[derive(Debug)] struct U2 { age: i32, name: String }
+macro_rules! age_vs_30 { ($v:expr, $op:tt) => { assert_struct!($v, U2 { age: $op 30, .. }) } }
+macro_rules! age_from { ($v:expr, $lo:tt) => { assert_struct!($v, U2 { age: $lo ..= 99, .. }) } }
+macro_rules! age_to { ($v:expr, $hi:tt) => { assert_struct!($v, U2 { age: 50 ..= $hi, .. }) } }
+macro_rules! age_limit { ($v:expr, $limit:tt) => { assert_struct!($v, U2 { age: > $limit, .. }) } }
+"""
+# (call, the tokens of the failing sub-pattern as they are written - in the caller's line or in the macro body)
+# (a caller-supplied token that carries the span of the generated reporting code - the first token of a range, the operand of a comparison -
+# does not compile at all: pattern tokens from another hygiene context cannot see the expansion's own locals, observation O17)
+TWO_CONTEXT_CASES = [("age_vs_30!(u,\n    >\n    );", [">", "30"]), ("age_to!(u,\n    60\n    );", ["50", "..=", "60"]), ("age_vs_30!(u,\n    ==\n    );", ["==", "30"])]
+
+
+KNOWN_TWO_CONTEXT_CASE = 1
+KNOWN_TWO_CONTEXT = {
+    "id": "C04-range-from-a-helper-body-to-its-caller",
+    "what": "a sub-pattern whose FIRST token is written in the body of a caller's macro_rules! helper and whose LAST token is supplied by the helper's caller further "
+            "down the file (`macro_rules! age_to { ($v:expr, $hi:tt) => { assert_struct!($v, U2 { age: 50 ..= $hi, .. }) } }` called as `age_to!(u, 60)`): the entry "
+            "marks everything from the `50` in the helper to the `60` at the call, i.e. text that is not the sub-pattern's",
+}
+
+
+def two_contexts(res):
+    """a sub-pattern whose anchor tokens come from TWO places (a caller's macro_rules! helper supplies one token, the helper's body the
+    other): whatever is marked must lie inside ONE of the sub-pattern's own tokens - never the text between the two places"""
+    name = "direct:a sub-pattern whose tokens come from two macro contexts is marked inside one of its own tokens (real macro under rustc)"
+    res.obligations.append(name)
+    body = ["    run_case(\"%d\", || { let u = U2 { age: 20, name: String::new() }; %s });" % (i, call) for i, (call, _) in enumerate(TWO_CONTEXT_CASES)]
+    src = e2e.PRELUDE + TWO_CONTEXT_DECLS + "fn main() {\n    std::panic::set_hook(Box::new(|_| {}));\n" + "\n".join(body) + "\n}\n"
+    o = e2e.compile_many([src], run=True, tag="c04m")[0]
+    e2e.cleanup("c04m")
+    if not o["compiled"]:
+        raise vlib.CheckError("the two-context program does not compile: " + o["stderr"][-1500:])
+    results = e2e.parse_case_lines(o.get("stdout", ""))
+    data = src.encode("utf-8")
+    bad = 0
+    for i, (call, toks) in enumerate(TWO_CONTEXT_CASES):
+        r = results.get(str(i))
+        if r is None or r["verdict"] != "fail" or not r.get("spans") or len(r["spans"]) != 1:
+            raise vlib.CheckError("two-context case %d: unexpected outcome %r" % (i, r))
+        bs, be = r["spans"][0]
+        marked = data[bs:be].decode("utf-8", "replace")
+        forward_across = "\n" in marked and marked.startswith(toks[0]) and marked.rstrip().endswith(toks[-1]) and i == KNOWN_TWO_CONTEXT_CASE
+        if forward_across and KNOWN_TWO_CONTEXT["id"] in {f["id"] for f in vlib.load_known_findings()["findings"]}:
+            res.known.append(KNOWN_TWO_CONTEXT["what"])
+            continue
+        if not (marked.strip() and any(marked.strip() == t[:len(marked.strip())] or t in marked and len(marked) <= len(" ".join(toks)) + 2 for t in toks) and "\n" not in marked):
+            bad += 1
+            if bad <= 2:
+                res.violation("failing-input", "`%s` (the helper supplies the rest of the sub-pattern `%s`): the entry marks bytes %d..%d = `%s`, which is not inside one of "
+                              "the sub-pattern's own tokens" % (call.replace("\n", " "), " ".join(toks), bs, be, marked[:120]), {"two_context_program": src, "case": i})
+    res.streams["anchors-from-two-macro-contexts"] = {"cases": len(TWO_CONTEXT_CASES), "failures": bad}
+    if not bad:
+        res.discharged.append(name)
+    return bad
+
+
 def run(res):
     res.trusted += ["Coq 8.16.1 kernel (coqc)", "extraction to OCaml (ExtrOcamlBasic only), ocaml/*.ml",
                     "harness/rt (byte_offset_of through the cfg-guarded hook), harness/mac (in-process expansion: proc-macro2's fallback, "
@@ -316,6 +373,7 @@ def run(res):
                                       "beginning of that sub-pattern's own text" % (p["node"], marked, ls, cs, ce),
                                       {"case": cid, "source_lines": src.split("\n")[ls - 2:le + 1], "entry": p})
     e2e.cleanup("c04")
+    lay_fail += two_contexts(res)
     res.streams["layouts_under_rustc"] = {"assertions": len(chunk), "entries_checked": marks, "rendered_spans_checked": rendered_spans, "failures": lay_fail,
                                           "styles": {s: sum(1 for x in chunk if x[2] == s) for s in styles + ["bom-first-line"]},
                                           "files_with_a_byte_order_mark": sum(1 for p_ in progs if p_.startswith(textgen.BOM))}
